@@ -4,7 +4,7 @@ import json
 
 from vgv import configs, objs
 
-# an op is ['reset'] | ['step', action_index] | ['obs'] | ['state']
+# an op is ['reset'] | ['step', action_index] | ['obs'] | ['state'] | ['reseed', seed]
 
 
 def run_op(env, op, started, record_reads=True):
@@ -14,6 +14,11 @@ def run_op(env, op, started, record_reads=True):
     if k == 'reset':
         env.reset()
         return [['reset', objs.canon_state(env.state)]], True
+    if k == 'reseed':
+        # the same instance is given a seed again and reset: from here on it must behave like a fresh environment with that seed
+        env.set_seed(op[1])
+        env.reset()
+        return [['reseed', op[1], objs.canon_state(env.state)]], True
     if not started:
         return [['noop']], False
     if k == 'step':
